@@ -540,7 +540,7 @@ def rand_float(rng):
     if r < 0.5:
         return rng.uniform(-1000, 1000)
     if r < 0.7:
-        return float(f"{rng.choice(['', '-'])}{rng.random()}e{rng.randint(-330, 310)}")
+        return float(f"{rng.choice(['', '-'])}{rng.random():.17f}e{rng.randint(-330, 310)}")
     if r < 0.85:
         return float(rng.randint(-10**6, 10**6)) / rng.choice([1, 2, 4, 8, 10, 100])
     import struct
@@ -653,7 +653,7 @@ def gen_de_all(rng, tier):
             yield de_case(s, [t])
         yield de_case(s, ["int", "float", "str"])
     # bounded-exhaustive small strings
-    for s in exhaustive("01.-e_ ", 4):
+    for s in exhaustive("01.-e_ ", 4 if quick else 5):
         for t in ("int", "float", "Decimal"):
             yield de_case(s, [t])
     for s in exhaustive("+9E.N", 3 if quick else 5):
@@ -682,7 +682,7 @@ def gen_de_all(rng, tier):
         yield de_case(s, ["bytes"], KW(format="base64"))
     for s in exhaustive("0aF g", 4):
         yield de_case(s, ["bytes"], KW(format="base16"))
-    for _ in range(300 if quick else 4500):
+    for _ in range(300 if quick else 12000):
         b = rand_bytes(rng)
         fmt = rng.choice(["base16", "base64"])
         s = ser_plain(b, KW(format=fmt))
@@ -702,14 +702,14 @@ def gen_de_all(rng, tier):
             yield de_case(s, ["QName"], KW(ns_map=m))
     for s in exhaustive("a:{}u 1", 4):
         yield de_case(s, ["QName"], KW(ns_map=[["u", "urn:u"], [None, "urn:d"]]))
-    for _ in range(300 if quick else 4500):
+    for _ in range(300 if quick else 12000):
         m = rng.choice(NS_MAPS)
         s = rng.choice(QNAME_HAND)
         for _ in range(rng.choice([0, 1, 1, 2])):
             s = mutate(rng, s, "a:{}u -#./_é́१1\n")
         yield de_case(pad(rng, s), ["QName"], KW(ns_map=m))
     # random valid values, serialised by the real code, optionally padded / mutated
-    for _ in range(1500 if quick else 22500):
+    for _ in range(1500 if quick else 60000):
         t = rng.choice(ATOM_TYPES)
         v = rand_atom(rng, t)
         kw = KW(format=rng.choice(["base16", "base64"])) if t == "bytes" else KW(ns_map=rng.choice(NS_MAPS)) if t == "QName" else KW()
@@ -731,7 +731,7 @@ def gen_de_all(rng, tier):
             for s in pool:
                 yield de_case(s, list(perm), KW(format="base16", ns_map=[["xs", "http://www.w3.org/2001/XMLSchema"]]))
                 yield {**de_case(s, list(perm), KW(format="base16", ns_map=[["xs", "http://www.w3.org/2001/XMLSchema"]])), "sort": True}
-    for _ in range(400 if quick else 6000):
+    for _ in range(400 if quick else 16000):
         k = rng.randint(0, 5)
         types = [rng.choice(ATOM_TYPES + ["unregistered"]) for _ in range(k)]
         if rng.random() < 0.3:
@@ -749,9 +749,9 @@ def gen_de_all(rng, tier):
         for s in ENUM_CTX_STRINGS:
             for kw in ENUM_CTX_KWS:
                 yield de_case(s, [{"enum": members}], kw)
-    for _ in range(100 if quick else 1500):
+    for _ in range(100 if quick else 4000):
         yield de_case(pad(rng, rng.choice(ENUM_CTX_STRINGS)), [{"enum": rng.choice(ENUM_SETS_CTX)}], rng.choice(ENUM_CTX_KWS))
-    for _ in range(400 if quick else 6000):
+    for _ in range(400 if quick else 16000):
         members = rand_enum(rng)
         if members is None:
             continue
@@ -835,7 +835,7 @@ def gen_ser(rng, tier):
     for members in ENUM_SETS:
         for m in members:
             yield {"v": {"t": "member", "v": m}, "kw": KW(format="base16", ns_map=[["u", "urn:u"]])}
-    for _ in range(1500 if quick else 22500):
+    for _ in range(1500 if quick else 60000):
         t = rng.choice(ATOM_TYPES)
         v = rand_atom(rng, t)
         kw = KW(format=rng.choice([None, "base16", "base64"])) if t == "bytes" else KW(ns_map=rng.choice(NS_MAPS)) if t == "QName" else KW()
@@ -863,7 +863,7 @@ def gen_test_all(rng, tier):
         for t in ("int", "float", "Decimal", "bool", "str"):
             for strict in (True, False):
                 yield {**de_case(s, [t]), "strict": strict}
-    for _ in range(600 if quick else 9000):
+    for _ in range(600 if quick else 24000):
         t = rng.choice(["int", "float", "Decimal", "bool"])
         v = rand_atom(rng, t)
         s = ser_plain(v)
@@ -885,7 +885,7 @@ def gen_sort(rng, tier):
     for a, b in itertools.permutations(names, 2):
         yield {"names": [a, b]}
     yield {"names": []}
-    for _ in range(800 if tier == "quick" else 12000):
+    for _ in range(800 if tier == "quick" else 32000):
         k = rng.randint(2, 8)
         yield {"names": [rng.choice(names) for _ in range(k)]}
     for _ in range(100):
@@ -910,7 +910,7 @@ def gen_from_value(rng, tier):
         yield {"v": enc_atom(v)}
     for v in FLOAT_EDGE:
         yield {"v": enc_atom(v)}
-    for _ in range(600 if tier == "quick" else 9000):
+    for _ in range(600 if tier == "quick" else 24000):
         yield {"v": enc_atom(rand_atom(rng, rng.choice(["int", "float", "float", "bool", "Decimal", "bytes"])))}
 
 
@@ -919,13 +919,13 @@ def gen_float_lit(rng, tier):
         yield {"s": s}
     for s in exhaustive("1.e-_ 0", 5 if tier == "quick" else 7):
         yield {"s": s}
-    for _ in range(800 if tier == "quick" else 12000):
+    for _ in range(800 if tier == "quick" else 32000):
         s = repr(rand_float(rng))
         for _ in range(rng.choice([0, 1, 1, 2])):
             s = mutate(rng, s, "0123456789+-.eE_ infa٣")
         yield {"s": pad(rng, s)}
     # literals generated from the grammar float() accepts (so that accepted inputs are not a small minority)
-    for _ in range(12000 if tier == "quick" else 180000):
+    for _ in range(12000 if tier == "quick" else 480000):
         dig = lambda n: "_".join("".join(rng.choice("0123456789٣") for _ in range(rng.randint(1, 4))) for _ in range(n))  # noqa: E731
         ip = dig(rng.randint(1, 3)) if rng.random() < 0.85 else ""
         fp = dig(rng.randint(1, 2)) if rng.random() < 0.6 or not ip else ""
@@ -958,7 +958,7 @@ def gen_is_ncname(rng, tier):
     alpha = "a_1-.: é́·٣²"
     for s in exhaustive(alpha, 3):
         yield {"s": s}
-    for _ in range(500 if tier == "quick" else 7500):
+    for _ in range(500 if tier == "quick" else 20000):
         yield {"s": "".join(chr(rng.choice([rng.randint(0, 0x250), rng.randint(0x300, 0x3ff), rng.randint(0x900, 0x97f), rng.randint(0x2000, 0x2200), rng.randint(0, 0x2FFFF)])) for _ in range(rng.randint(1, 3)))}
 
 
@@ -979,7 +979,7 @@ def gen_is_uri(rng, tier):
         yield {"s": s}
     for s in ["http://www.w3.org/2000/09/xmldsig#", "http://www.w3.org/1999/02/22-rdf-syntax-ns#", "a-b:c", "a+b-c.d:e", "-a:b", "a,b#c,d", "a#b,c-d", "a\\b", "a^b#c", "a#b^c", "a#b]c", "a#b\\c"]:
         yield {"s": s}
-    for _ in range(300 if tier == "quick" else 4500):
+    for _ in range(300 if tier == "quick" else 12000):
         n = rng.randint(1, 6)
         yield {"s": "".join(rng.choice(["a", "Z", "0", "-", ",", ".", "/", ":", "#", "%", "~", "\\", "^", "]", "_", " ", "\n", chr(rng.randint(0x80, 0x2FFF)), chr(rng.randint(0, 0x10FFFF))]) for _ in range(n)).encode("utf-8", "surrogatepass").decode("utf-8", "replace")}
 
@@ -1050,7 +1050,7 @@ def gen_de_round_d(rng, tier):
         for s in DT_HAND if (not quick or f in DT_FORMATS[:8] + DT_BAD_FORMATS[:4] + [None]) else DT_HAND[::5]:
             for t in PY_DT_TYPES:
                 yield de_case(s, [t], KW(format=f))
-    for _ in range(4000 if quick else 60000):
+    for _ in range(4000 if quick else 160000):
         t = rng.choice(PY_DT_TYPES)
         f = rand_dt_format(rng)
         v = rand_py_dt(rng, "datetime")
@@ -1108,7 +1108,7 @@ def gen_ser_round_d_all(rng, tier):
         for v in [_dt.date(999, 1, 2), _dt.date(1, 1, 1), _dt.date(2020, 2, 29), _dt.time(1, 2, 3, 4500), _dt.time(0, 0, 0), _dt.datetime(2000, 1, 2, 3, 4, 5, 6),
                   _dt.datetime(9999, 12, 31, 23, 59, 59, 999999), _dt.datetime(1000, 10, 10, 10, 10, 10, 100000)]:
             yield {"v": enc_atom(v), "kw": KW(format=f)}
-    for _ in range(600 if quick else 9000):
+    for _ in range(600 if quick else 24000):
         t = rng.choice(PY_DT_TYPES)
         yield {"v": enc_atom(rand_py_dt(rng, t)), "kw": KW(format=rand_dt_format(rng))}
     for s in ["P1D", "P2Y6M5DT12H35M30.5S", "-P1Y", "PT0.5S", "P١D"]:
@@ -1163,6 +1163,12 @@ def gen_float_repr(rng, tier):
     for m in (1, 2, 5, 9, 10, 99, 100, 999):
         for e in range(-330, 311):
             yield {"s": f"{m}e{e}"}
+    if not quick:
+        # four significant digits on a lattice of exponents
+        off = rng.randrange(3)
+        for m in range(1000, 10000):
+            for e in range(-331 + off, 308, 3):
+                yield {"s": f"{m}e{e}"}
     # powers of two and their neighbours, halfway cases between adjacent doubles, subnormals, the overflow threshold
     for k in list(range(-1075, -1060)) + list(range(-1030, -1015)) + list(range(-5, 70)) + list(range(1015, 1025)):
         x = Fraction(2) ** k
@@ -1177,7 +1183,7 @@ def gen_float_repr(rng, tier):
               "9007199254740993.000000000000000000001", "0.1", "0.2", "0.3", "1e23", "8.41e21", "2.2250738585072011e-308", "2.2250738585072014e-308", "5e-324", "3e-324", "2e-324"]:
         yield {"s": s}
         yield {"s": "-" + s}
-    for _ in range(3000 if quick else 45000):
+    for _ in range(3000 if quick else 120000):
         r = rng.random()
         if r < 0.5:
             x = struct.unpack("<d", struct.pack("<Q", rng.getrandbits(64)))[0]
